@@ -1,6 +1,7 @@
 package ctfe
 
 import (
+	"bytes"
 	"encoding/base64"
 	"encoding/json"
 	"fmt"
@@ -14,6 +15,7 @@ import (
 type caPath struct {
 	Chain []*oracle.Cert // [issuing CA, ..., root]
 	Pre   *oracle.Cert   // optional precert-signing certificate issued by Chain[0]
+	Twin  *oracle.Cert   // optional re-issued root: same subject and key as the root, another serial and validity; also trusted
 }
 
 // PKI is the certificate hierarchy of one run.
@@ -57,6 +59,16 @@ func NewPKI(t *kernel.Tape, epoch time.Time, maxRoots, maxInter int) *PKI {
 			Exts: permute(t, []oracle.ExtKind{"bc", "ku", "ski"})})
 		p.Roots = append(p.Roots, root)
 		path := &caPath{Chain: []*oracle.Cert{root}}
+		if t.Chance(1, 3) {
+			// the CA re-issued its root certificate (same name, same key): both versions are trusted
+			p.serial++
+			spec := root.Spec
+			spec.Serial = p.serial
+			spec.NotBefore = epoch.AddDate(-1, 0, 0)
+			spec.NotAfter = epoch.AddDate(25, 0, 0)
+			path.Twin = oracle.Build(spec)
+			p.Roots = append(p.Roots, path.Twin)
+		}
 		nInter := t.Range(0, maxInter)
 		for i := 0; i < nInter; i++ {
 			kind := kindsCA[t.Intn(len(kindsCA))]
@@ -85,6 +97,7 @@ type Submission struct {
 	Issuers     []*oracle.Cert // chain after the leaf, root last
 	IsPre       bool
 	IncludeRoot bool
+	RootAlt     *oracle.Cert // another trusted certificate with the root's name and key (re-issued root), if any
 	Entry       oracle.Entry
 	// results (oracle bookkeeping)
 	SCTs []*SCT
@@ -126,6 +139,15 @@ func (p *PKI) NewLeaf(t *kernel.Tape, id int, allowPre bool) *Submission {
 	leaf := oracle.Build(oracle.CertSpec{CN: fmt.Sprintf("leaf %d", id), Serial: p.serial, Key: p.key(kind), Issuer: issuer,
 		NotBefore: p.epoch.AddDate(0, -1, 0), NotAfter: p.epoch.AddDate(0, months, 0), Exts: exts})
 	s := &Submission{ID: id, Leaf: leaf, Issuers: issuers, IsPre: isPre, IncludeRoot: t.Chance(1, 2)}
+	if path.Twin != nil {
+		// the submitter may name either version of the root; with the root omitted the log may complete with either
+		orig := issuers[len(issuers)-1]
+		s.RootAlt = path.Twin
+		if t.Chance(1, 2) {
+			s.Issuers = append(append([]*oracle.Cert{}, issuers[:len(issuers)-1]...), path.Twin)
+			s.RootAlt = orig
+		}
+	}
 	s.Entry = leaf.EntryFor()
 	return s
 }
@@ -184,4 +206,32 @@ func (s *Submission) Path() string {
 		return "/ct/v1/add-pre-chain"
 	}
 	return "/ct/v1/add-chain"
+}
+
+// chainOK reports whether chain is the validated chain after the leaf for this
+// submission: exactly the submitted certificates followed by the named root; when
+// the root was omitted from the submission and the CA has two trusted versions of
+// it, either version completes the chain.
+func (s *Submission) chainOK(chain [][]byte) string {
+	want := s.FullChainAfterLeaf()
+	if d := chainDiff(chain, want); d == "" {
+		return ""
+	} else if s.RootAlt == nil || s.IncludeRoot {
+		return d
+	}
+	alt := append(append([][]byte{}, want[:len(want)-1]...), s.RootAlt.DER)
+	return chainDiff(chain, alt)
+}
+
+// extraOK reports whether b is an acceptable extra_data encoding for this submission.
+func (s *Submission) extraOK(b []byte) bool {
+	if bytes.Equal(b, s.ExtraData()) {
+		return true
+	}
+	if s.RootAlt == nil || s.IncludeRoot {
+		return false
+	}
+	alt := *s
+	alt.Issuers = append(append([]*oracle.Cert{}, s.Issuers[:len(s.Issuers)-1]...), s.RootAlt)
+	return bytes.Equal(b, alt.ExtraData())
 }
